@@ -5,6 +5,7 @@ import (
 	"encoding/json"
 	"flag"
 	"fmt"
+	xsimrt "github.com/openacid/slim/xsimrt"
 	"os"
 	"os/exec"
 	"path/filepath"
@@ -58,7 +59,9 @@ func execute(scn *Scenario) *RunResult {
 		for _, k := range amb.kids {
 			fmt.Fprintf(os.Stderr, " [daemon=%v blocked=%v spin=%v done=%v]", k.daemon, k.blocked, k.spin, k.done)
 		}
-		fmt.Fprintln(os.Stderr)
+		var ms runtime.MemStats
+		runtime.ReadMemStats(&ms)
+		fmt.Fprintf(os.Stderr, " goroutines=%d heapMB=%d stackMB=%d sysMB=%d %s\n", runtime.NumGoroutine(), ms.HeapInuse>>20, ms.StackInuse>>20, ms.Sys>>20, clip(xsimrt.DebugChans(), 200))
 	}
 	if amb.spawned > 0 && res.Counters != nil {
 		res.Counters["library_goroutines_started"] += amb.spawned
@@ -209,11 +212,12 @@ func cmdRun(args []string) {
 	}
 	ambSetLane(*lane)
 	if gcOwned {
+		xsimrt.GCEveryOps = 50000
 		// GC is taken out of the picture while a run executes (sync.Pool and
 		// finalizer behaviour must not depend on when the collector happens to
 		// run) and invoked explicitly between runs.
 		debug.SetGCPercent(-1)
-		debug.SetMemoryLimit(3 << 30)
+		debug.SetMemoryLimit(2 << 30)
 	}
 	startWatchdog(180 * time.Second)
 
@@ -366,7 +370,7 @@ func cmdReplay(args []string) {
 	if scn.Lane == "sim" {
 		runtime.GOMAXPROCS(1)
 		debug.SetGCPercent(-1)
-		debug.SetMemoryLimit(3 << 30)
+		debug.SetMemoryLimit(2 << 30)
 	}
 	if scn.Lane == "racesim" {
 		runtime.GOMAXPROCS(1)
@@ -466,7 +470,7 @@ func cmdDeterminism(args []string) {
 		lane = "racesim"
 	} else {
 		debug.SetGCPercent(-1)
-		debug.SetMemoryLimit(3 << 30)
+		debug.SetMemoryLimit(2 << 30)
 	}
 	ambSetLane(lane)
 	startWatchdog(180 * time.Second)
